@@ -159,6 +159,11 @@ def stmt(self, s: ast.stmt, st: State) -> Optional[State]:
                         del o.items[cval(idx)]
                     else:
                         _weaken(o)
+                        if o.kind == "dict" and o.sure is not None:
+                            if is_const(idx):
+                                o.sure.discard(cval(idx)) if isinstance(cval(idx), (int, str, bytes, tuple)) else None
+                            else:
+                                o.sure = set()
                     o.version += 1
             elif isinstance(tgt, ast.Name):
                 st.envs[-1].pop(tgt.id, None)
@@ -197,6 +202,7 @@ def stmt(self, s: ast.stmt, st: State) -> Optional[State]:
 def _weaken(o: HObj):
     if o.kind == "dict" and o.exact:
         o.writes = [(C(k), v, o.created_ctx) for k, v in o.kv.items()]
+        o.sure = set(o.kv.keys())
         o.kv = {}
         o.exact = False
     elif o.kind in ("list", "bytearray", "set") and o.exact:
@@ -304,6 +310,11 @@ def store_subscript(self, base: Term, idx: Term, v: Term, st: State, node):
             return
         _weaken(o)
         o.writes.append((idx, v, st.ctx))
+        if is_const(idx) and o.sure is not None and not any(f[0] == "loop" and f not in o.created_ctx for f in st.ctx):
+            try:
+                o.sure.add(cval(idx))
+            except TypeError:
+                pass
         o.version += 1
         return
     if o.kind in ("list", "bytearray"):
